@@ -23,7 +23,9 @@ from .util import drop_candidates
 MAPS = [("x+100000", lambda x: x + 100000), ("x*2", lambda x: x * 2),
         ("-x", lambda x: -x)]
 PREDS = [("even", lambda x: x % 2 == 0), ("not3", lambda x: x % 3 != 0),
-         ("mod5lt3", lambda x: x % 5 < 3)]
+         ("mod5lt3", lambda x: x % 5 < 3),
+         # the built-in forms: keep the items that are true
+         ("None", None), ("bool", bool)]
 FRACS = [0.25, 0.4, 0.6, 0.75]
 CATS_TAKE = [(4, "within"), (2, "exact"), (3, "beyond"), (1, "zero"),
              (1, "neg"), (2, "float"), (2, "inf"), (2, "none"), (1, "ninf")]
@@ -153,8 +155,13 @@ class C03(Property):
                              (5, "copy"), (2, "tee"), (3, "thub"),
                              (4, "hub_use"), (2, "next_it"), (2, "for"),
                              (1, "thub_scalar"), (1, "rewrap")])
-      if odd and op in ("map", "filter"):
-        op = "copy"       # items that are None / falsy / not numbers
+      if odd and op == "filter":
+        # items that are None / falsy / not numbers: only filter(None) and
+        # filter(bool) make sense on them
+        ops.append([op, len(PREDS) - 1 - W.choose("oddp", 2)])
+        continue
+      if odd and op == "map":
+        op = "copy"
       if op in ("take", "peek"):
         ctor = W.weighted("ctor", [(8, None), (1, "tuple"), (1, "set"),
                                    (1, "sum"), (1, "sorted_desc")])
@@ -646,7 +653,8 @@ class _Ctx(object):
   def op_filter(self, h, op):
     nm, pr = PREDS[op[1]]
     self._inplace(h, "filter", "filter(%s)" % nm, lambda r: r.filter(pr),
-                  lambda rest: FilterSeq(pr, rest))
+                  lambda rest: FilterSeq(pr if pr is not None else bool,
+                                         rest))
 
   def op_append_list(self, h, op):
     a = [700000 + self.nsteps * 10 + i for i in range(op[1])]
